@@ -172,9 +172,52 @@ theorem rule01_iff (p : Pkg) : rule01 p = true ↔
       ∧ (∀ f, p.events = some f → f.params = documentedSig .events)
       ∧ (∀ f, p.regress = some f → f.params = documentedSig .regress)
       ∧ (∀ f, p.task = some f → f.params = documentedSig .task)) := by
+  -- independent of the order in which `dawgie.Factories` lists its members
+  have complete : ∀ k : Factory, k ∈ Rules.factoryOrder := by
+    intro k; cases k <;> decide
+  have anyk : Rules.factoryOrder.any p.has = true ↔ ∃ k, p.has k = true := by
+    simp only [List.any_eq_true]
+    exact ⟨fun ⟨k, _, h⟩ => ⟨k, h⟩, fun ⟨k, h⟩ => ⟨k, complete k, h⟩⟩
+  have allk : ∀ q : Factory → Bool, Rules.factoryOrder.all q = true ↔ ∀ k, q k = true := by
+    intro q
+    simp only [List.all_eq_true]
+    exact ⟨fun h k => h k (complete k), fun h k _ => h k⟩
+  unfold rule01
+  rw [Bool.and_eq_true, anyk, allk]
   obtain ⟨a, e, r, t⟩ := p
-  cases a <;> cases e <;> cases r <;> cases t <;>
-    simp [rule01, Rules.factoryOrder, Pkg.has, Pkg.params, sig_analysis, sig_events, sig_regress, sig_task]
+  constructor
+  · rintro ⟨⟨k, hk⟩, h⟩
+    have ha := h .analysis
+    have he := h .events
+    have hr := h .regress
+    have ht := h .task
+    refine ⟨?_, ?_, ?_, ?_, ?_⟩
+    · cases k <;> simp_all [Pkg.has]
+    · intro f hf; simp only at hf; subst hf; simpa [Pkg.params, sig_analysis] using ha
+    · intro f hf; simp only at hf; subst hf; simpa [Pkg.params, sig_events] using he
+    · intro f hf; simp only at hf; subst hf; simpa [Pkg.params, sig_regress] using hr
+    · intro f hf; simp only at hf; subst hf; simpa [Pkg.params, sig_task] using ht
+  · rintro ⟨ho, ha, he, hr, ht⟩
+    refine ⟨?_, ?_⟩
+    · rcases ho with ho | ho | ho | ho
+      · exact ⟨.analysis, by simpa [Pkg.has] using ho⟩
+      · exact ⟨.events, by simpa [Pkg.has] using ho⟩
+      · exact ⟨.regress, by simpa [Pkg.has] using ho⟩
+      · exact ⟨.task, by simpa [Pkg.has] using ho⟩
+    · intro k
+      cases k with
+      | analysis => cases a with
+        | none => simp [Pkg.params]
+        | some f => simpa [Pkg.params, sig_analysis] using ha f rfl
+      | events => cases e with
+        | none => simp [Pkg.params]
+        | some f => simpa [Pkg.params, sig_events] using he f rfl
+      | regress => cases r with
+        | none => simp [Pkg.params]
+        | some f => simpa [Pkg.params, sig_regress] using hr f rfl
+      | task => cases t with
+        | none => simp [Pkg.params]
+        | some f => simpa [Pkg.params, sig_task] using ht f rfl
 
 theorem rule06_iff (p : Pkg) : rule06 p = true ↔
     ∀ f, p.task = some f → f.callOk Rules.rule06Arity ∧ f.content.listImpl = true
